@@ -7,7 +7,12 @@ from typing import Self
 import numpy as np
 from pydantic import ConfigDict, ValidationInfo, model_validator
 
-from ropt.config.utils import ImmutableBaseModel, broadcast_arrays, immutable_array
+from ropt.config.utils import (
+    ImmutableBaseModel,
+    broadcast_1d_array,
+    broadcast_arrays,
+    immutable_array,
+)
 from ropt.config.validated_types import (  # noqa: TC001
     Array1D,
     Array1DInt,
@@ -76,6 +81,13 @@ class NonlinearConstraintsConfig(ImmutableBaseModel):
         self._mutable()
         self.lower_bounds = immutable_array(lower_bounds)
         self.upper_bounds = immutable_array(upper_bounds)
+        for name in ("realization_filters", "function_estimators"):
+            if (indices := getattr(self, name)) is not None:
+                setattr(
+                    self,
+                    name,
+                    broadcast_1d_array(indices, name, self.lower_bounds.size),
+                )
         self._immutable()
 
         return self
